@@ -5,10 +5,13 @@
      ref <files: dir=contenthex,..> <path> <f|d>
          -> "1"/"0" (reference semantics: ignored file / excluded directory), then " U" when a line of
             some file is outside the supported grammar
-     seq <flags: fixed_P17 fixed_nl fixed_P5 as three 0/1> <files> <dirs: path,..> <datehex> <watch: path,..>
+     esc <namehex>
+         -> hex of escape_name (the name as repo-patches/75 writes it), then " V" when valid_name holds
+     seq <flags: fixed_P17 fixed_nl fixed_P5 fixed_sn fixed_em fixed_P35 as six 0/1> <files> <dirs: path,..> <datehex> <watch: path,..>
          <stages separated by ';':  T:<dir targets>:<file targets> | H:<ops: D~path / F~path ,..> | M:<dests>>
          -> "ok|fuel <files after> <stage~target=WMP,..> <watch=I,..> sup=<0/1> wf=<0/1> nl=<0/1>"
-            W = K_user_whitelist, M = K_engine_mismatch (both on the state before the stage), P = plain path,
+            W = K_user_whitelist, M = K_engine_mismatch (both on the state before the stage), P = path_ok fixed_sn
+            (not in the class special-name),
             I = ignored under the reference semantics in the final state
    Parsing and printing only. *)
 open Common
@@ -43,8 +46,12 @@ let () =
             let p = path f.(2) in
             let r = if f.(3) = "d" then ignored_dir gf p else ignored gf p in
             bit r ^ (if supported gf then "" else " U")
+        | "esc" ->
+            let n = bs f.(1) in
+            hx (escape_name n) ^ (if valid_name n then " V" else "")
         | "seq" ->
-            let p17 = b f.(1).[0] and nl = b f.(1).[1] and p5 = b f.(1).[2] in
+            let p17 = b f.(1).[0] and nl = b f.(1).[1] and p5 = b f.(1).[2] and sn = b f.(1).[3] and em = b f.(1).[4] in
+            let p35 = Stdlib.String.length f.(1) > 5 && b f.(1).[5] in
             let gf0 = files f.(2) in
             let e = { e_dirs = Stdlib.List.map path (lst f.(3)); e_date = bs f.(4) } in
             let watch = Stdlib.List.map path (lst f.(5)) in
@@ -58,15 +65,15 @@ let () =
                     if k = "D~" then IgnDir p else IgnFile p) (lst o))
               | _ -> failwith ("stage " ^ s) in
             let stages = if f.(6) = "-" then [] else Stdlib.List.map stage (Stdlib.String.split_on_char ';' f.(6)) in
-            let build = xvc_build p17 and chk = xvc_chk p17 in
+            let build = xvc_build p17 p35 and chk = xvc_chk p17 p35 in
             let gf = ref gf0 and ok = ref true and bits = ref [] and wf = ref true and i = ref 0 in
             Stdlib.List.iter (fun c ->
               let per t =
-                string_of_int !i ^ "~" ^ spath t ^ "=" ^ bit (coq_K_user_whitelist build chk nl !gf c t)
-                ^ bit (coq_K_engine_mismatch build chk nl !gf c t) ^ bit (plain_path t) in
+                string_of_int !i ^ "~" ^ spath t ^ "=" ^ bit (coq_K_user_whitelist build chk nl sn em !gf c t)
+                ^ bit (coq_K_engine_mismatch build chk nl sn em !gf c t) ^ bit (path_ok sn t) in
               bits := !bits @ Stdlib.List.map per (file_targets c);
-              wf := !wf && wf_cmd c;
-              let (gf', k) = run_cmd build chk nl p5 !gf c in
+              wf := !wf && wf_cmd sn c;
+              let (gf', k) = run_cmd build chk nl p5 sn em !gf c in
               gf := gf'; ok := !ok && k; incr i) stages;
             (if !ok then "ok " else "fuel ") ^ sfiles !gf ^ " "
             ^ (if !bits = [] then "-" else Stdlib.String.concat "," !bits) ^ " "
